@@ -190,6 +190,8 @@ def probes():
         "null_custom_sets_flag": bool(stix2.parse(dict(ident, x_foo=None), allow_custom=True).has_custom),
         # C01: extra properties next to an unregistered toplevel-property-extension keep set order
         "ext_order_sorted": ext_order_probe(),
+        # C02: a boolean passes for an integer in socket-ext options
+        "sock_bool": acc(lambda: stix2.v21.SocketExt(address_family="AF_INET", options={"SO_KEEPALIVE": True})),
         "d2s_ext_nondict": exc_of(lambda: stix2.parse({"type": "x-unknown-type", "id": "x-unknown-type--" + u, "extensions": "abc"})),
     }
 
